@@ -65,8 +65,11 @@ type Finding struct {
 	// into a schema other goroutines already hold)
 	KeyContains []string `json:"key_contains,omitempty"`
 	What        string   `json:"what"`
-	Commit    string `json:"commit,omitempty"`
+	Commit      string   `json:"commit,omitempty"`
 }
+
+// RaceBuild is set by race-detector builds of the worker (they run an order of magnitude slower).
+var RaceBuild bool
 
 // Known is the list of known findings (status "known" only) for the property being run.
 var Known []Finding
